@@ -224,7 +224,13 @@ func init() {
 func c06RacePass(tier string, cov map[string]interface{}) []run.Violation {
 	vdir := run.VerifDir()
 	bin := filepath.Join(vdir, "bin", "racepass")
-	build := exec.Command("go", "build", "-race", "-o", bin, "./cmd/racepass")
+	args := []string{"build", "-race", "-o", bin}
+	if mf := os.Getenv("VERIF_MODFILE"); mf != "" {
+		args = append(args, "-modfile="+mf)
+		bin += "-alt"
+		args[3] = bin
+	}
+	build := exec.Command("go", append(args, "./cmd/racepass")...)
 	build.Dir = filepath.Join(vdir, "h")
 	build.Env = append(os.Environ(), "CGO_ENABLED=1")
 	if out, err := build.CombinedOutput(); err != nil {
